@@ -8,7 +8,8 @@ META = {
                    'volatile load; it blocks only after winning cmpxchg(state: s -> s + (1 << n_threads_bits)) and re-checks '
                    'after wake-up; dec is cmpxchg(s -> s+1) and on the edge n_decs == n_threads-1 wakes (s >> n_threads_bits) '
                    'waiters, s being the expected operand of that very cmpxchg; wait and dec use the same shift and mask '
-                   'fields and init stores mask = (1 << b) - 1 with the b it stores as the shift.',
+                   'fields and init stores mask = (1 << b) - 1 with the b it stores as the shift.'
+                   ' The initialiser writes every field the operations read (C07.4).',
     'not_decided': 'overflow of the packed word for extreme N / waiter counts; liveness of waiters under all schedules',
     'assumptions': ['at most n_threads decrements are issued (the library exits otherwise)'],
 }
